@@ -1133,7 +1133,9 @@ def parse_beep(toks):
 
 
 @parse_action(bload_stmt)
-def parse_bload_stmt(toks):
+def parse_bload_stmt(s, loc, toks):
+    if len(toks) != 2:
+        raise SyntaxError(loc, 'BLOAD without an offset is not supported')
     filespec, offset = toks
     return BloadStmt(filespec, offset)
 
